@@ -92,6 +92,11 @@ func c16Run(c string) string {
 			for j := range b {
 				b[j] = 0xa5 // stale content of the caller's buffer must never show up
 			}
+			if i%3 == 1 {
+				// the debug level is switched between reads, as the serial client does when a debug point arrives: it is
+				// not part of the framing and must not touch what is buffered
+				cw.SetDebug(i % 2)
+			}
 			n, err := cw.Read(b)
 			if err != nil {
 				res = append(res, cobsErr(err))
